@@ -3,6 +3,7 @@ package c07
 import (
 	"database/sql/driver"
 	"fmt"
+	"time"
 
 	"github.com/samsarahq/thunder/sqlgen"
 	"verif/explore"
@@ -26,7 +27,30 @@ type Wide struct {
 	PS   *string `sql:"ps"`
 	By   []byte
 	IN   int64 `sql:"in,implicitnull"`
+	At   time.Time
+	PAt  *time.Time `sql:"pat"`
+	Bin  WPair      `sql:",binary"`
+	U64  uint64
 }
+
+// WPair is stored through its binary marshalling.
+type WPair struct{ A, B byte }
+
+func (p WPair) MarshalBinary() ([]byte, error) { return []byte{p.A, p.B}, nil }
+func (p *WPair) UnmarshalBinary(b []byte) error {
+	if len(b) != 2 {
+		return fmt.Errorf("WPair: %d bytes", len(b))
+	}
+	p.A, p.B = b[0], b[1]
+	return nil
+}
+
+var (
+	wt0    = time.Date(2020, 1, 2, 3, 4, 5, 0, time.UTC)
+	wt1    = time.Date(2021, 1, 1, 0, 0, 0, 0, time.UTC)
+	wplus2 = time.FixedZone("plus2", 2*3600)
+	wbig   = uint64(1)<<63 + 5
+)
 
 func ps(s string) *string { return &s }
 
@@ -39,10 +63,10 @@ func runTester(rp *explore.Report, tier string) {
 	fdb := fakesql.New()
 	ft := fdb.AddTable(table)
 	rows := []*Wide{
-		{Id: 1},
-		{Id: 2, I32: 5, U8: 200, S: "a", NS: "n", B: true, F: 1.5, P: p64(5), PS: ps("a"), By: []byte("a"), IN: 7},
-		{Id: 3, I32: -1, U8: 0, S: "A", NS: "", B: false, F: 0, P: p64(0), PS: ps(""), By: []byte{}, IN: 0},
-		{Id: 4, I32: 5, U8: 5, S: "5", NS: "5", B: true, F: 5, P: nil, PS: nil, By: nil, IN: 5},
+		{Id: 1, At: wt1},
+		{Id: 2, I32: 5, U8: 200, S: "a", NS: "n", B: true, F: 1.5, P: p64(5), PS: ps("a"), By: []byte("a"), IN: 7, At: wt0, PAt: &wt0, Bin: WPair{1, 2}, U64: wbig},
+		{Id: 3, I32: -1, U8: 0, S: "A", NS: "", B: false, F: 0, P: p64(0), PS: ps(""), By: []byte{}, IN: 0, At: wt0.In(wplus2), PAt: &wt1, Bin: WPair{3, 4}, U64: 7},
+		{Id: 4, I32: 5, U8: 5, S: "5", NS: "5", B: true, F: 5, P: nil, PS: nil, By: nil, IN: 5, At: wt1, PAt: nil, Bin: WPair{1, 2}, U64: 0},
 	}
 	var nilI *int64
 	var nilS *string
@@ -58,10 +82,14 @@ func runTester(rp *explore.Report, tier string) {
 		"ps":  {ps("a"), "a", ps(""), nilS, nil},
 		"by":  {[]byte("a"), []byte{}, []byte(nil)},
 		"in":  {int64(7), int64(0), int64(5), p64(0)},
+		"at":  {wt0, wt0.In(wplus2), &wt0, wt1, wt1.Local()},
+		"pat": {&wt0, wt0.In(wplus2), wt1, (*time.Time)(nil)},
+		"bin": {WPair{1, 2}, &WPair{3, 4}, WPair{9, 9}},
+		"u64": {wbig, uint64(7), 7, uint64(0)},
 	}
 	var filters []sqlgen.Filter
 	filters = append(filters, sqlgen.Filter{}, nil)
-	cols := []string{"id", "i32", "u8", "s", "ns", "b", "f", "p", "ps", "by", "in"}
+	cols := []string{"id", "i32", "u8", "s", "ns", "b", "f", "p", "ps", "by", "in", "at", "pat", "bin", "u64"}
 	for _, c := range cols {
 		for _, v := range vals[c] {
 			filters = append(filters, sqlgen.Filter{c: v})
@@ -136,5 +164,5 @@ func runTester(rp *explore.Report, tier string) {
 
 func init() {
 	reg.Register(&reg.Harness{Property: "C07", Name: "c07/tester-vs-where", Level: "model_checking", Run: runTester,
-		Rule: "sequential part: every filter (each column kind x values in several Go representations incl. pointers, typed and untyped nil, named types, implicitnull, []byte; all two-column combinations) x every row: sqlgen.Tester.Test(row) == verdict of the WHERE clause sqlgen generates for the same filter, evaluated with SQL NULL semantics"})
+		Rule: "sequential part: every filter (each column kind x values in several Go representations incl. pointers, typed and untyped nil, named types, implicitnull, []byte, instants in several time zones, a binary-marshalled type, unsigned 64-bit beyond the int64 range; all two-column combinations) x every row: sqlgen.Tester.Test(row) == verdict of the WHERE clause sqlgen generates for the same filter, evaluated with SQL NULL semantics"})
 }
